@@ -391,7 +391,7 @@ func prepareRPC(st *rpcState, cfg *ConfigPlan) {
 		cr.MethodPath = cp.Path
 	}
 	for _, ms := range cp.Msgs {
-		wm := WireMsg{Compressed: ms.Compressed}
+		wm := WireMsg{Compressed: ms.Compressed, Pad: ms.Pad}
 		switch {
 		case ms.RawPayload != nil:
 			wm.Data = ms.RawPayload
@@ -411,6 +411,9 @@ func prepareRPC(st *rpcState, cfg *ConfigPlan) {
 	}
 	if cp.Form == FormREST && cp.RestJSON != nil {
 		cr.Msgs = []WireMsg{{Data: cp.RestJSON}}
+		if len(cp.Msgs) > 0 {
+			cr.Msgs[0].Pad = cp.Msgs[0].Pad
+		}
 	}
 	rr := renderRequest(cr)
 	if cp.ShortCT && (cp.Form == FormGRPC || cp.Form == FormGRPCWeb) {
